@@ -34,7 +34,9 @@ RULE = ("documents from harness/gen_docs_full.py (executable + type-system, ever
         "node of the same class, one skip; chains of 1-3 recording visitors with independent rule "
         "tables; the three ast_transforms visitors; class tables probed per class. non-trivial = the "
         "case edits or skips a node, or uses a chain/dispatching visitor; distinct = distinct "
-        "(text, chain rules)")
+        "(text, chain rules); a location-erased stream (every node loc = None as after parse(no_location=True) "
+        "or programmatic construction; node identity tracked in a side table) over documents with repeated "
+        "structurally equal members in every kind of child list, every position edited")
 
 KINDS = ["Document", "OperationDefinition", "FragmentDefinition", "VariableDefinition", "Variable",
          "SelectionSet", "Field", "Argument", "FragmentSpread", "InlineFragment", "IntValue",
@@ -125,8 +127,19 @@ def make_replacement(node, salt):
 
 
 # ------------------------------------------------------------------ recording visitors
+def _loc_of(self, node):
+    """the node's location; in the location-erased stream the location the node
+    had when parsed / built, looked up by object identity"""
+    side = getattr(self, "side", None)
+    if side is not None:
+        ent = side.get(id(node))
+        return ent[1] if ent is not None else None
+    return node.loc
+
+
 def _decide(self, node):
-    key = (type(node).__name__, tuple(node.loc) if node.loc else None)
+    loc = _loc_of(self, node)
+    key = (type(node).__name__, tuple(loc) if loc else None)
     self.log.append([self.idx, True, key[0], list(key[1]) if key[1] else None])
     rule = self.rules.get(key)
     if rule is None:
@@ -139,7 +152,8 @@ def _decide(self, node):
 
 
 def _left(self, node):
-    self.log.append([self.idx, False, type(node).__name__, list(node.loc) if node.loc else None])
+    loc = _loc_of(self, node)
+    self.log.append([self.idx, False, type(node).__name__, list(loc) if loc else None])
 
 
 class Rec(ASTVisitor):
@@ -184,6 +198,34 @@ def build_chain(doc, chain, log):
     return vs[0], vs
 
 
+def erase_locations(doc, vs):
+    """Location-erased stream: every node of the document and of the prepared
+    replacements gets loc = None (what parse(no_location=True) / programmatic
+    construction gives), so that repeated members of a list are structurally
+    equal (Node.__eq__). Identity is kept in a side table id -> (node, loc) that
+    the recording visitors use to find their rules and to log, and that
+    restores the locations afterwards so the result can be compared by position."""
+    side = {}
+    roots = [doc]
+    for v in vs:
+        for rule in v.rules.values():
+            if rule[0] == "replace":
+                roots.append(rule[1])
+    for r in roots:
+        for n in walk(r):
+            side[id(n)] = (n, n.loc)
+    for n, _loc in side.values():
+        n.loc = None
+    for v in vs:
+        v.side = side
+    return side
+
+
+def restore_locations(side):
+    for n, loc in side.values():
+        n.loc = loc
+
+
 def coq_chain(doc, chain):
     idx = index_nodes(doc)
     out = []
@@ -217,8 +259,11 @@ def positions(text):
     return [(e[2], e[3]) for e in log if e[1]]
 
 
-def visit_case(text, chain):
-    return {"kind": "visit", "text": text, "chain": chain}
+def visit_case(text, chain, noloc=False):
+    c = {"kind": "visit", "text": text, "chain": chain}
+    if noloc:
+        c["noloc"] = True
+    return c
 
 
 def corpus():
@@ -245,6 +290,15 @@ def corpus():
                 ch = keep_chain()
                 ch["visitors"][0]["rules"].append([p[0], p[1], act, 3])
                 out.append(visit_case(t, ch))
+    # seeded C18-a: edits must find their target by position, not by equality
+    # (location-erased trees, repeated structurally equal members)
+    for t in G.DUP_WITNESSES:
+        out.append(visit_case(t, keep_chain(), noloc=True))
+        for k, p in enumerate(positions(t)):
+            for act in ("delete", "replace"):
+                ch = keep_chain()
+                ch["visitors"][0]["rules"].append([p[0], p[1], act, 11 + k])
+                out.append(visit_case(t, ch, noloc=True))
     # every gap witness (known findings)
     for t in GAP_WITNESSES.values():
         out.append(visit_case(t, keep_chain()))
@@ -332,9 +386,28 @@ def generate(rng, tier):
                         ch["fresh"][str(700000 + s)] = loc
                         ch["visitors"][1]["rules"].append(
                             [k, [700000 + s, 700001 + s], rng.choice(["skip", "delete", "replace"]), 900 + s])
-            cases.append(visit_case(text, ch))
+            cases.append(visit_case(text, ch, noloc=rng.random() < 0.4))
         if "{" in text and rng.random() < 0.5:
             cases.append({"kind": "transform", "which": rng.choice([0, 1, 2]), "text": text})
+    kinds = sorted(G.DUP_KINDS)
+    for rep in range(1 if tier == "quick" else 6):
+        for kind in kinds:
+            text = G.gen_dup_document(rng, kind)
+            try:
+                ps = positions(text)
+            except Exception:
+                continue
+            cases.append(visit_case(text, keep_chain(disp=rng.random() < 0.5), noloc=True))
+            for k, (cls, loc) in enumerate(ps):
+                for act in ("delete", "replace", "skip"):
+                    ch = keep_chain(disp=rng.random() < 0.3, n=rng.choice([1, 1, 2]))
+                    ch["visitors"][rng.randrange(len(ch["visitors"]))]["rules"].append([cls, loc, act, 21 + k])
+                    cases.append(visit_case(text, ch, noloc=True))
+            # several simultaneous edits on duplicates
+            for _ in range(3):
+                ch = keep_chain(n=1)
+                ch["visitors"][0]["rules"] = _random_rules(rng, ps, rng.randint(2, 4), 300)
+                cases.append(visit_case(text, ch, noloc=True))
     for _ in range(40 if tier == "quick" else 400):
         text = gen_exec.gen_document(rng)[0].replace("friends", rng.choice(["bestFriends", "best_friends", "a_bC"]))
         cases.append({"kind": "transform", "which": rng.choice([0, 1, 2]), "text": text})
@@ -362,13 +435,17 @@ def run_impl(case):
     if k == "visit":
         doc = parse(case["text"], **G.PARSE_KW)
         log = []
-        top, _vs = build_chain(doc, case["chain"], log)
+        top, vs = build_chain(doc, case["chain"], log)
+        side = erase_locations(doc, vs) if case.get("noloc") else None
         try:
             res = top.visit(doc)
         except TypeError as e:
             return {"crash": "TypeError", "msg": str(e)[:100]}
         except Exception as e:  # noqa
             return {"crash": type(e).__name__, "msg": str(e)[:100]}
+        finally:
+            if side is not None:
+                restore_locations(side)
         return {"events": log, "result": _ser_result(res)}
     if k == "transform":
         doc = parse(case["text"], **G.PARSE_KW)
@@ -649,6 +726,7 @@ def extra_evidence(cases, obss):
                     classes[r[0]] += 1
             if o.get("result") == "ILLFORMED":
                 acts["required-child-deleted"] += 1
-    return {"distribution": {"case_kinds": dict(kinds), "actions": dict(acts), "chains": dict(chains),
+    return {"distribution": {"location_erased_cases": sum(1 for c in cases if c.get("noloc")),
+                             "case_kinds": dict(kinds), "actions": dict(acts), "chains": dict(chains),
                              "edited_classes": len(classes),
                              "edited_class_histogram": dict(classes.most_common())}}
